@@ -203,7 +203,16 @@ def run_property(prop, tier, seed, replay=None):
     new, known_hit = [], {}
     seen = set()
     for name, m in sorted(subs.items()):
+        # per class keep the two smallest cases over all shards
+        bycls = {}
         for v in m["violations"]:
+            tag = (v["case"].get("cls") or ["?"])[0] if isinstance(v["case"], dict) else "?"
+            bycls.setdefault(tag, []).append(v)
+        kept = []
+        for tag, vs in sorted(bycls.items()):
+            vs.sort(key=lambda v: (v.get("w") is None, v.get("w") or 0))
+            kept.extend(vs[:2])
+        for v in kept:
             key = json.dumps(v["case"], sort_keys=True, default=str)
             if key in seen:
                 continue
